@@ -5,6 +5,8 @@ Fault enumeration on the real collection loop: for every configuration, every wo
 and both ways of dying (SIGKILL, crash with exit code 1), combined with every schedule of parent operations and
 surviving workers (mc/vmp.py). Every terminal execution must end in a non-zero exit or an escaping exception."""
 
+import os
+
 from mc import framework as fw
 from mc import realign_common as rc
 from mc.props import c11
@@ -67,6 +69,10 @@ def faults_for(c, tier, nops=None):
 
 
 def plan(tier, seed):
+    return [{"real_fault": True, "shard": i, "of": 6} for i in range(6)] + plan_virtual(tier, seed)
+
+
+def plan_virtual(tier, seed):
     cs = rc.configs(tier)
     if tier == "quick":
         # four one-record workers x 8 fault points each are left to the thorough tier (the three-worker configurations stay)
@@ -74,6 +80,77 @@ def plan(tier, seed):
     # the heaviest configurations first, so that the pool stays busy
     cs.sort(key=lambda c: -(rc.n_workers(c) * (c["nrec"] + 2) * (3 if c.get("long") else 1)))
     return [{"config": c, "i": i} for i, c in enumerate(cs)]
+
+
+REAL_TIMEOUT = 20
+
+
+def real_fault_runs(res, scratch, spec, tier, only=None):
+    """Binding the fault model to the operating system without the virtual scheduler: the real command with real worker
+    processes, one of which really dies (SIGKILL, SIGTERM, os._exit, exception) at a chosen point. The command has to end
+    with a non-zero status within the time limit."""
+    import gzip
+    import signal
+    import subprocess
+    import sys
+
+    d = os.path.join(scratch, "realfault")
+    nrec = 4
+    cfg = rc.make_inputs(d, nrec)
+    gz = os.path.join(d, "g.gfa.gz")
+    with gzip.open(gz, "wt") as f:
+        f.write(rc.GFA_TEXT)
+    runs = []
+    for cores in (1, 2):
+        for batch in (1, 2):
+            nw = -(-nrec // batch)
+            for w in sorted({0, nw - 1}):
+                recs = min(batch, nrec - w * batch)
+                for k in sorted({0, recs}):
+                    for kind in ("kill", "term", "exc", "exit3"):
+                        for graph in (cfg["gfa"], gz):
+                            runs.append((cores, batch, w, k, kind, graph))
+    if tier == "quick":
+        runs = [r for r in runs if r[0] == 2 or r[4] in ("kill", "term")]
+    env = dict(os.environ)
+    env["PYTHONPATH"] = fw.VERIF + os.pathsep + env.get("PYTHONPATH", "")
+    nhang = 0
+    for i, (cores, batch, w, k, kind, graph) in enumerate(runs):
+        if i % spec["of"] != spec["shard"]:
+            continue
+        if only is not None and [cores, batch, w, k, kind, os.path.basename(graph)] != only:
+            continue
+        out = os.path.join(d, "out.gaf")
+        if os.path.exists(out):
+            os.remove(out)
+        what = f"[real processes: --cores {cores}, {batch} record(s) per worker, worker {w} dies by {kind} after {k} result(s), graph {os.path.basename(graph)}]"
+        case = {"real_fault": [cores, batch, w, k, kind, os.path.basename(graph)]}
+        res.evaluations += 1
+        res.nt(fw.h64(case))
+        res.count("real_process_fault_runs")
+        # own session, no pipes: a hung command leaves live grandchildren behind, which are killed as a group
+        with open(os.path.join(d, "driver.err"), "wb") as errf:
+            p = subprocess.Popen([sys.executable, "-m", "mc.realfault_driver", d, str(cores), str(batch), str(w), str(k), kind, graph],
+                                 cwd=fw.VERIF, env=env, stdout=subprocess.DEVNULL, stderr=errf, stdin=subprocess.DEVNULL, start_new_session=True)
+            try:
+                p.wait(timeout=REAL_TIMEOUT)
+                hung = False
+            except subprocess.TimeoutExpired:
+                hung = True
+            try:
+                os.killpg(p.pid, signal.SIGKILL)
+            except ProcessLookupError:
+                pass
+            p.wait()
+        if hung:
+            res.fail(f"C13/real-run:hang:{kind}", f"{what} the command is still running after {REAL_TIMEOUT} s", case)
+            nhang += 1
+            if nhang >= 3:
+                break  # enough evidence; every further hang costs the full time limit
+            continue
+        if p.returncode == 0:
+            n = len([l for l in open(out).read().split("\n") if l]) if os.path.exists(out) else 0
+            res.fail(f"C13/real-run:zero-exit:{kind}", f"{what} the command exited with status 0 ({n} of {nrec} records written)", case)
 
 
 def judge(x, nrec, fault):
@@ -106,6 +183,9 @@ def judge(x, nrec, fault):
 
 def run_shard(spec, tier, scratch):
     res = fw.ShardResult()
+    if spec.get("real_fault"):
+        real_fault_runs(res, scratch, spec, tier)
+        return res
     c = spec["config"]
     budget = [CAP[tier]]
     from mc import vmp
@@ -143,6 +223,7 @@ def finalize(results, tier):
             "explorations_capped": st.get("explorations_capped", 0),
         }
     }
+    out["coverage"]["real_process_fault_runs"] = st.get("real_process_fault_runs", 0)
     if st.get("traces_validated_against_impl", 0) == 0 and not st.get("configurations_with_shared_semaphores(model only)"):
         out["harness_error"] = "no fault schedule was validated on real processes"
     if st.get("explorations_capped", 0):
@@ -154,6 +235,10 @@ def replay(case, scratch):
     from mc import vmp
 
     res = fw.ShardResult()
+    if "real_fault" in case:
+        tmp = fw.ShardResult()
+        real_fault_runs(tmp, scratch, {"shard": 0, "of": 1}, "thorough", only=list(case["real_fault"]))
+        return tmp.failures
     c = case["config"]
     cfg = rc.cfg_for(scratch, c)
     x1 = vmp.Exec(cfg, case["schedule"], case.get("fault")).run()
